@@ -336,6 +336,7 @@ def r7(ctx, ops=("explicit_partition", "explicit_repair"), R="C03-R7"):
 
 
 def run(ctx):
+    scan_rule(ctx, "C03")
     ts = Typestate(ctx.w, CELLS)
     r1(ctx, ts)
     r2(ctx, ts)
